@@ -408,9 +408,70 @@ fn stats_json(s: &MuxerStats, cfg: &Cfg) -> Value {
     } else {
         (s.duration_secs * 270000.0).round()
     };
-    let d = if d.is_finite() && d >= 0.0 && d < 2147483647.0 { d as u64 } else { 2147483647 };
-    json!({"v": s.video_frames.min(0x7fff_ffff), "a": s.audio_frames.min(0x7fff_ffff),
-           "bytes": s.bytes_written.min(0x7fff_ffff), "dur": d})
+    let d = if d.is_finite() && d >= 0.0 && d < 1e9 { d as u64 } else { crate::reader::BIG };
+    json!({"v": s.video_frames.min(crate::reader::BIG), "a": s.audio_frames.min(crate::reader::BIG),
+           "bytes": s.bytes_written.min(crate::reader::BIG), "dur": d})
+}
+
+/// Monitor-totality self-test only (cfg.corrupt = seed): damage the produced bytes before they are projected, as an
+/// arbitrarily deviating implementation might; the trace specifications must describe the result with signatures,
+/// never fail to evaluate.
+pub fn corrupt(b: &mut Vec<u8>, seed: u64) {
+    let mut x = seed.wrapping_mul(0x9E37_79B9_7F4A_7C15).wrapping_add(0x1234_5678_9ABC_DEF1);
+    let mut next = |m: usize| -> usize {
+        x ^= x << 13;
+        x ^= x >> 7;
+        x ^= x << 17;
+        if m == 0 { 0 } else { (x % m as u64) as usize }
+    };
+    if b.is_empty() {
+        return;
+    }
+    let n = 1 + next(3);
+    for _ in 0..n {
+        let len = b.len();
+        if len == 0 {
+            return;
+        }
+        let at = next(len);
+        match next(8) {
+            0 => b[at] ^= 1 << next(8),
+            1 => b[at] = [0u8, 1, 0x7f, 0x80, 0xff][next(5)],
+            2 => {
+                // a 32-bit field becomes large / small
+                let v: u32 = [0u32, 1, 7, 8, 0x7fff_ffff, 0x8000_0000, 0xffff_ffff][next(7)];
+                let a = at.min(len.saturating_sub(4));
+                if a + 4 <= len {
+                    b[a..a + 4].copy_from_slice(&v.to_be_bytes());
+                }
+            }
+            3 => b.truncate(at),
+            4 => {
+                let e = (at + 1 + next(12)).min(len);
+                b.drain(at..e);
+            }
+            5 => {
+                let e = (at + 1 + next(12)).min(len);
+                let dup: Vec<u8> = b[at..e].to_vec();
+                let _ = b.splice(at..at, dup);
+            }
+            6 => {
+                // off-by-small in a 32-bit big-endian count/offset
+                let a = at.min(len.saturating_sub(4));
+                if a + 4 <= len {
+                    let v = u32::from_be_bytes([b[a], b[a + 1], b[a + 2], b[a + 3]]);
+                    let w = if next(2) == 0 { v.wrapping_add(1 + next(3) as u32) } else { v.wrapping_sub(1 + next(3) as u32) };
+                    b[a..a + 4].copy_from_slice(&w.to_be_bytes());
+                }
+            }
+            _ => {
+                let e = (at + 1 + next(6)).min(len);
+                for k in at..e {
+                    b[k] = 0;
+                }
+            }
+        }
+    }
 }
 
 pub struct RunOpts {
@@ -576,7 +637,11 @@ pub fn run_instance(id: u64, cfg: &Cfg, calls: &[Value], opts: &RunOpts) -> RunR
         }
         if is_fin && ok && opts.project {
             let bytes = sink.bytes();
-            let obs = reader::project_file(&bytes[sb.min(bytes.len())..], &unit, &facets);
+            let mut out = bytes[sb.min(bytes.len())..].to_vec();
+            if let Some(seed) = cfg.json.get("corrupt").and_then(|x| x.as_u64()) {
+                corrupt(&mut out, seed);
+            }
+            let obs = reader::project_file(&out, &unit, &facets);
             ev.insert("obs".into(), obs);
         }
         outcomes.push((ok, var.clone()));
@@ -725,7 +790,11 @@ pub fn run_frag_instance(id: u64, cfg: &Cfg, calls: &[Value]) -> RunResult {
                     match catch(|| m.flush_segment()) {
                         Ok(Some(seg)) => {
                             ev.insert("some".into(), json!(true));
-                            ev.insert("seg".into(), reader::project_segment(&seg, &unit, &facets));
+                            let mut seg2 = seg.clone();
+                            if let Some(seed) = cfg.json.get("corrupt").and_then(|x| x.as_u64()) {
+                                corrupt(&mut seg2, seed + outcomes.len() as u64);
+                            }
+                            ev.insert("seg".into(), reader::project_segment(&seg2, &unit, &facets));
                             out_bytes.extend_from_slice(&seg);
                             outcomes.push((true, "segment".into()));
                         }
@@ -777,7 +846,11 @@ pub fn run_frag_instance(id: u64, cfg: &Cfg, calls: &[Value]) -> RunResult {
                             let same = first_init.as_ref().map(|f| f == &init).unwrap_or(true);
                             ev.insert("same_as_first".into(), json!(same));
                             if first_init.is_none() {
-                                ev.insert("obs".into(), reader::project_file(&init, &unit, &facets));
+                                let mut init2 = init.clone();
+                                if let Some(seed) = cfg.json.get("corrupt").and_then(|x| x.as_u64()) {
+                                    corrupt(&mut init2, seed + 1000);
+                                }
+                                ev.insert("obs".into(), reader::project_file(&init2, &unit, &facets));
                                 out_bytes.extend_from_slice(&init);
                                 first_init = Some(init);
                             }
